@@ -14,7 +14,7 @@ def U(src, config='base', **kw):
     return _units[u.key]
 
 
-NOGROW = dict(stubs=['tag_ptr', 'node_type', 'node_ptr', 'enc_no_growth'], noinline=['@_ZN5unodb6detail15ensure_capacityE'])
+NOGROW = dict(stubs=['tag_ptr', 'node_type', 'node_ptr', 'lib_abort', 'enc_no_growth'], noinline=['@_ZN5unodb6detail15ensure_capacityE'])
 
 
 def ENC(**kw):
@@ -78,7 +78,37 @@ def c15():
                              'text read/emit limits at the truncation boundary.')
 
 
-REGISTRY = {'C11': c11, 'C12': c12, 'C15': c15}
+LOCK_EXT = ['gh_done', 'gh_snap', 'gh_acquired', 'gh_released', 'gh_set_obsolete']
+MIX2 = ['mix_rc_w', 'mix_ru_w', 'mix_w_w', 'mix_rc_wo', 'mix_ru_wo', 'mix_w_wo', 'mix_rh_w', 'mix_rh_wo']
+MIX3 = ['mix_rc_w_w', 'mix_ru_w_wo', 'mix_w_w_wo', 'mix_rc_ru_w', 'mix_rh_w_w', 'mix_rh_w_wo']
+MIX_ABOUT = {'rc': 'reader validating with check()', 'ru': 'reader validating with try_read_unlock()', 'w': 'writer (upgrade, 2-word write, unlock)',
+             'wo': 'writer ending in unlock_and_obsolete()', 'rh': 'reader re-opening a section with rehydrate_read_lock()'}
+
+
+def c07():
+    qs = []
+    for cfg in ('base', 'debug'):
+        u = U('lock.cpp', cfg, threads=True, extra_glue=['lock_glue.c'], cdefs=['IR2C_SPIN_CUT'], extern_c=LOCK_EXT)
+        sfx = '' if cfg == 'base' else '-debug'
+        qs.append(Query('lockword' + sfx, U('lockword.cpp', cfg), 'h_lockword', unwind=3, about='lock-word predicates/arithmetic for all 2^64 words',
+                        bounds={'inputs': 'full 64-bit word'}, tier='quick' if cfg == 'base' else 'thorough'))
+        for m in MIX2 + MIX3:
+            parts = m.split('_')[1:]
+            three = len(parts) == 3
+            tier = 'quick' if (cfg == 'base' and (not three or m in ('mix_rc_w_w',))) else 'thorough'
+            qs.append(Query(m + sfx, u, m, unwind=3, replay='none', tier=tier,
+                            about='all SC interleavings of: ' + ' || '.join(MIX_ABOUT[p] for p in parts) + (' [assertion-enabled build: read_lock_count bookkeeping]' if cfg == 'debug' else ''),
+                            bounds={'threads': len(parts), 'ops_per_thread': 1, 'memory_model': 'SC', 'spin': 'spinning executions cut (equivalent to later arrival)'}))
+    return Check('C07', 'model_checking', qs,
+                 assumptions=['threads: CBMC partial-order encoding, sequential consistency, every atomic access a scheduling point',
+                              'a thread that would spin in try_read_lock is cut at the spin hint (assume false): the spinning reads have no effect, so the execution is equivalent to one where the thread arrives later',
+                              'ghost observers (writers_active, acquisitions, obsolete) are updated in atomic steps adjacent to the lock calls (harness/lock_glue.c)',
+                              'version wrap-around after 2^62 write cycles is outside the claim'],
+                 explanation='One operation per thread (read section, upgrade+write+unlock, unlock_and_obsolete, rehydrate), 2 and 3 threads, all interleavings decided by SAT. '
+                             'More than one operation per thread and more than three threads are outside the bound.')
+
+
+REGISTRY = {'C07': c07, 'C11': c11, 'C12': c12, 'C15': c15}
 
 
 def get(pid):
